@@ -678,6 +678,143 @@ fn apply<S: BDDSymbol>(
     }
 }
 
+/// Reference semantics of the raw operations on 64-bit truth tables (the lock-step model of
+/// C02's observation "`==` with the diagram built from the expected truth table"). None = the
+/// operation has no single expected function (model, retain, cancelled fp ...).
+fn expected_tt(op: &Op, a: &[u64], n: usize) -> Option<u64> {
+    let full = low_mask(n);
+    let cof = |tt: u64, i: usize, v: bool| -> u64 {
+        let m = var64(i, n);
+        let sh = 1usize << i;
+        if v {
+            let x = tt & m;
+            x | (x >> sh)
+        } else {
+            let x = tt & !m & full;
+            x | (x << sh)
+        }
+    };
+    let count_at = |list: &[u64], asg: usize| -> i64 { list.iter().filter(|t| (**t >> asg) & 1 == 1).count() as i64 };
+    Some(match op {
+        Op::Const(b) => {
+            if *b {
+                full
+            } else {
+                0
+            }
+        }
+        Op::Var(i) => var64(*i, n),
+        Op::Un(UnKind::Not, _) => !a[0] & full,
+        Op::Un(UnKind::Clean | UnKind::Simplify | UnKind::Find, _) => a[0],
+        Op::Un(UnKind::Model, _) => return None,
+        Op::Bin(k, _, _) => {
+            let (x, y) = (a[0], a[1]);
+            (match k {
+                BinKind::And => x & y,
+                BinKind::Or => x | y,
+                BinKind::Implies => !x | y,
+                BinKind::Eq => !(x ^ y),
+                BinKind::Xor => x ^ y,
+                BinKind::Nor => !(x | y),
+                BinKind::Nand => !(x & y),
+            }) & full
+        }
+        Op::Ite(..) => ((a[0] & a[1]) | (!a[0] & a[2])) & full,
+        Op::Exists(vs, _) => {
+            let mut t = a[0];
+            for v in vs {
+                if *v < n {
+                    t = cof(t, *v, true) | cof(t, *v, false);
+                }
+            }
+            t
+        }
+        Op::All(vs, _) => {
+            let mut t = a[0];
+            for v in vs {
+                if *v < n {
+                    t = cof(t, *v, true) & cof(t, *v, false);
+                }
+            }
+            t
+        }
+        Op::ExistsImpl(v, _) => {
+            if *v < n {
+                cof(a[0], *v, true) | cof(a[0], *v, false)
+            } else {
+                a[0]
+            }
+        }
+        Op::CountN(k, _, bound) => {
+            let mut t = 0u64;
+            for asg in 0..(1usize << n) {
+                let c = count_at(a, asg);
+                let ok = match k {
+                    CountKind::Aln => c >= *bound,
+                    CountKind::Amn => c <= *bound,
+                    CountKind::Exn => c == *bound,
+                };
+                if ok {
+                    t |= 1u64 << asg;
+                }
+            }
+            t
+        }
+        Op::CountCmp(k, l, _) => {
+            let (x, y) = a.split_at(l.len());
+            let mut t = 0u64;
+            for asg in 0..(1usize << n) {
+                let (cx, cy) = (count_at(x, asg), count_at(y, asg));
+                let ok = match k {
+                    CmpKind::Leq => cx <= cy,
+                    CmpKind::Lt => cx < cy,
+                    CmpKind::Geq => cx >= cy,
+                    CmpKind::Gt => cx > cy,
+                    CmpKind::Eq => cx == cy,
+                };
+                if ok {
+                    t |= 1u64 << asg;
+                }
+            }
+            t
+        }
+        Op::Fp(_, s) => {
+            if s.cancel_at.is_some() {
+                return None;
+            }
+            let (g, h) = (a[1], a[2]);
+            let chain = &a[3..];
+            let mut x = a[0];
+            let mut k = 0usize;
+            loop {
+                let new = match s.kind {
+                    ScriptKind::OrG => x | g,
+                    ScriptKind::AndG => x & g,
+                    ScriptKind::ConstG => g,
+                    ScriptKind::OrAndGH => x | (g & h),
+                    ScriptKind::IteGXH => ((g & x) | (!g & h)) & full,
+                    ScriptKind::Chain => {
+                        if chain.is_empty() {
+                            x
+                        } else {
+                            chain[k.min(chain.len() - 1)]
+                        }
+                    }
+                };
+                k += 1;
+                if new == x {
+                    break x;
+                }
+                x = new;
+                if k > 200 {
+                    return None;
+                }
+            }
+        }
+        _ => return None,
+    })
+}
+
 fn res_equal<S: BDDSymbol>(x: &Res<S>, y: &Res<S>) -> Result<(), String> {
     match (x, y) {
         (Res::Bdd(a), Res::Bdd(b)) => {
@@ -1266,6 +1403,24 @@ impl<'p, W: World> Exec<'p, W> {
         }
 
         if self.prop() == "C02" {
+            // K4: the result is the canonical diagram of the *expected* function (reference
+            // semantics on truth tables), as the property's observation says
+            if let Caught::Ok(Res::Bdd(a)) = &shared {
+                let arg_tts: Option<Vec<u64>> = args.iter().map(|x| self.walk(x).ok()).collect();
+                if let (Some(atts), Ok(got)) = (arg_tts, self.walk(a)) {
+                    if let Some(want) = expected_tt(op, &atts, self.n) {
+                        if got != want {
+                            return Err(viol(
+                                "C02",
+                                "K4",
+                                &opname,
+                                step_no,
+                                format!("{opname}: the result denotes {got:#x}; a reduced ordered diagram built from the expected truth table {want:#x} therefore cannot be `==` to it (operand tables {:x?})", atts),
+                            ));
+                        }
+                    }
+                }
+            }
             if let (Caught::Ok(Res::Bdd(a)), Some(Caught::Ok(Res::Bdd(b)))) = (&shared, &fresh_res) {
                 // K on the diagram from the *other* environment, and K3 across environments
                 let ta = self.walk(a).map_err(|e| viol("C02", "K1", &opname, step_no, e))?;
